@@ -27,6 +27,13 @@ def _oracle(ctx, ncases):
     extra = ""
     xml, sp = models.random_model_xml(rng, nbody=int(rng.integers(2, 5)), joint_types=("free", "hinge", "slide", "ball"),
                                       geom_types=["sphere", "capsule", "box"], option=f'cone="{cone}" solver="{solver}" iterations="50" tolerance="1e-10"', spread=0.25)
+    # anisotropic sliding friction exists only for explicit pairs: floor against some of the geoms, mu1 != mu2, condim 3/4/6
+    if rng.random() < 0.6 and sp.geoms and 'name="floor"' in xml:
+      prs = ""
+      for gname in rng.choice(sp.geoms, size=min(len(sp.geoms), int(rng.integers(1, 3))), replace=False):
+        mu = rng.uniform(0.2, 1.5, size=2)
+        prs += f'<pair geom1="floor" geom2="{gname}" condim="{int(rng.choice([3, 4, 6]))}" friction="{mu[0]:.3f} {mu[1]:.3f} 0.01 0.001 0.001"/>'
+      xml = xml.replace("</mujoco>", f"<contact>{prs}</contact></mujoco>")
     # add friction loss + limits by attribute injection
     xml = xml.replace('type="hinge"', 'type="hinge" frictionloss="0.3" limited="true" range="-0.4 0.4"', 2)
     try:
